@@ -130,7 +130,11 @@ func specUploader(u *uploader) bool {
 // notNeeded: true only if a report for the week is known to exist (an
 // "uploaded" marker, or a ready report whose name contains the date).
 //@ contract notNeeded
-//@   ensures result ==> (todo.uploaded != nil && todo.uploaded[date+".json"]) || (exists i int :: 0 <= i && i < len(todo.readyfiles) && strings.Contains(todo.readyfiles[i], date))
+// A week counts as already reported only if its own report is known: recorded as
+// uploaded under <date>.json, or a ready report whose file name is <date>.json.
+//@   ensures result ==> (todo.uploaded != nil && todo.uploaded[date+".json"]) || (exists i int :: 0 <= i && i < len(todo.readyfiles) && filepath.Base(todo.readyfiles[i]) == date+".json")
+//@   ensures (todo.uploaded != nil && todo.uploaded[date+".json"]) || (exists i int :: 0 <= i && i < len(todo.readyfiles) && filepath.Base(todo.readyfiles[i]) == date+".json") ==> result
+//@   loop 1: invariant forall i int :: 0 <= i && i <= rangeindex ==> filepath.Base(todo.readyfiles[i]) != date+".json"
 //@   modifies nothing
 
 //@ contract (*uploader).deleteFiles
